@@ -212,7 +212,25 @@ fn maps(seed: u64) -> Maps {
     for mode in ["osu", "taiko", "catch", "mania"] {
         let objs = random_objs(&mut rng, mode, 7);
         let text = concretize(mode, &objs, &profile(seed as u32));
-        let map = Beatmap::from_bytes(text.as_bytes()).expect("concretised map decodes");
+        let mut map = Beatmap::from_bytes(text.as_bytes()).expect("concretised map decodes");
+        let mut text = text;
+        // osu!: a window of the fixture instead (real slider shapes: "difficult sliders", ticks, stacking), synthetic as fallback
+        if mode == "osu" {
+            if let Ok(t) = std::fs::read_to_string("/repo/resources/2785319.osu") {
+                let ls: Vec<&str> = t.lines().collect();
+                if let Some(ho) = ls.iter().position(|l| l.trim() == "[HitObjects]") {
+                    let n = 40usize;
+                    let start = ho + 1 + (seed as usize * 31 + 120) % (ls.len() - ho - 1 - n).max(1);
+                    let mut keep: Vec<&str> = ls[..=ho].to_vec();
+                    keep.extend(ls[start..(start + n).min(ls.len())].iter());
+                    let w = keep.join("\n");
+                    if let Ok(m) = Beatmap::from_bytes(w.as_bytes()) {
+                        map = m;
+                        text = w;
+                    }
+                }
+            }
+        }
         by_mode.insert(mode.to_string(), (map, text));
     }
     Maps { by_mode }
